@@ -37,6 +37,7 @@ LEVEL_TEXT = (
     "request, not all members of the class on all layouts."
     " Refusals include metric registration for an unknown axis, the impossible shift on the second of two cumsum axes, falsy unknown words, NaN bin edges, and position words in signatures and annotations."
 )
+LEVEL_TEXT += ' Also decided: falsy spellings of unknown words / non-numeric fill values at the constructor, a falsy target position in the dispatch and cumsum, fewer arguments and axis entries than signature inputs.'
 LEVEL_NOTE = "Trusted: abstract evaluator's exception model for Python containers. Each class is represented by a small family of requests (listed in the evidence)."
 
 AX, AY = Sym("AX"), Sym("AY")
